@@ -632,20 +632,23 @@ TRANSLATOR_TIE = {"C01": ["hmm_likelihood", "add_or_mult", "state_dist_evo", "di
                   "C03": ["fast_trace", "bi_state_dist", "bi_obs_dist", "bi_patient_likelihoods", "bi_bn_likelihood", "bi_hmm_likelihood"],
                   "C04": ["evolve_midext", "ml_midext_evo", "ml_contra_state_dist_evo", "ml_state_dist", "ml_obs_dist", "ml_hmm_likelihood"],
                   "C05": ["tensor", "state_idx", "generate_transition", "comp_trans_prob", "transition_prob", "get_state", "set_state"],
-                  "C06": ["confusion", "observation", "row_wise_kron", "comp_obs_prob", "diagnosis_prob", "observation_matrix", "obs_list"],
+                  "C06": ["confusion", "observation", "row_wise_kron", "comp_obs_prob", "diagnosis_prob", "observation_matrix", "obs_list", "mod_init", "mod_spec_sens", "mod_check_confusion_matrix", "mod_confusion_matrix_set", "mod_confusion_matrix"],
                   "C07": ["comp_bayes_net_prob", "evolve", "state_dist_evo", "state_dist", "obs_dist"],
                   "C08": ["compute_encoding", "tile_and_repeat", "generate_data_encoding", "early_late_mapping", "diagnosis_matrix"],
                   "C10": ["popfirst", "unflatten_and_split", "edge_get_params", "edge_set_params", "set_params_for", "flatten",
-                          "get_params_from", "dist_get_params", "dist_set_params", "leaf_set_dist_params", "leaf_get_dist_params"],
-                  "C11": ["edge_set_params", "set_params_for"],
-                  "C12": ["popfirst", "edge_set_params", "dist_set_params"],
+                          "get_params_from", "dist_get_params", "dist_set_params", "leaf_set_dist_params", "leaf_get_dist_params", "synchronize_params", "uni_get_tumor_spread_params", "uni_get_lnl_spread_params", "uni_get_spread_params", "uni_get_params", "uni_set_tumor_spread_params", "uni_set_lnl_spread_params", "uni_set_spread_params", "uni_set_params", "bi_get_tumor_spread_params", "bi_get_lnl_spread_params", "bi_get_spread_params", "bi_get_params", "bi_set_tumor_spread_params", "bi_set_lnl_spread_params", "bi_set_spread_params", "bi_set_params"],
+                  "C11": ["edge_set_params", "set_params_for", "synchronize_params", "bi_set_tumor_spread_params", "bi_set_lnl_spread_params", "bi_set_params", "branch_set_modality", "branch_del_modality", "branch_replace_all_modalities", "branch_clear_modalities"],
+                  "C12": ["popfirst", "edge_set_params", "dist_set_params", "nm_safe_set_params", "nm_set_named_params", "uni_set_params", "bi_set_params"],
                   "C13": ["bn_likelihood", "hmm_likelihood", "ml_hmm_likelihood"],
                   "C14": ["tensor", "state_idx", "generate_transition", "evolve", "state_dist_evo"],
-                  "C17": ["unflatten_and_split", "set_params_for"],
+                  "C17": ["unflatten_and_split", "set_params_for", "nm_named_params", "nm_set_named", "nm_del_named", "nm_does_contain_in_order", "nm_create_alias_map", "nm_get_named_params", "nm_set_named_params", "nm_get_num_dims", "nm_safe_set_params"],
                   "C18": ["dist_normalize", "dist_is_updateable", "dist_max_time", "dist_pmf", "dist_get_params", "dist_set_params",
                           "leaf_set_dist_params", "leaf_get_dist_params"],
                   "C19": ["check_unique_names", "init_nodes", "init_edges", "representation", "to_dict", "gen_state_list", "state_list",
-                          "edge_views", "get_name"]}
+                          "edge_views", "get_name"],
+                  "C16": ["utils_draw_diagnosis", "dist_draw_diag_times", "uni_draw_diagnosis", "uni_draw_patients", "bi_draw_patients"],
+                  "C20": ["mod_hash", "mod_eq", "leaf_modalities_hash", "branch_modalities_hash"],
+                  "C09": ["mod_is_leaf", "leaf_get_all_modalities", "leaf_get_modality", "leaf_set_modality", "leaf_del_modality", "leaf_replace_all_modalities", "leaf_clear_modalities"]}
 # advisory pieces: functions that the stored behaviour-preserving refactorings rewrite (tools/translator_vs_patches.sh over
 # seeded/refactor-*).  Their obligation is generated, checked and recorded on every run, but when it breaks the
 # correspondence alone decides (no violation is raised for the broken obligation itself).
@@ -657,7 +660,13 @@ ADVISORY_PIECES = {"observation", "generate_transition", "bn_likelihood", "hmm_l
                    "bi_posterior_state_dist", "bi_marginalize", "bi_risk",
                    "ml_contra_state_dist_evo", "ml_state_dist", "ml_obs_dist", "ml_hmm_likelihood",
                    "init_nodes", "init_edges", "representation", "to_dict", "gen_state_list", "state_list", "edge_views", "get_name",
-                   "get_state", "set_state"}
+                   "get_state", "set_state",
+                   "bi_set_tumor_spread_params", "bi_set_lnl_spread_params", "bi_set_spread_params", "bi_set_params",
+                   "uni_draw_diagnosis", "uni_draw_patients", "bi_draw_patients",
+                   "mod_init", "mod_spec_sens", "mod_check_confusion_matrix", "mod_confusion_matrix_set", "mod_confusion_matrix",
+                   "mod_hash", "mod_eq", "mod_is_leaf", "leaf_get_modality", "leaf_set_modality", "leaf_replace_all_modalities",
+                   "leaf_modalities_hash", "branch_set_modality", "branch_del_modality", "branch_replace_all_modalities",
+                   "branch_clear_modalities", "branch_modalities_hash"}
 
 
 def translator_tie(ctx: "Ctx") -> None:
